@@ -741,6 +741,57 @@ def c11(tier):
                         "deliveries and a late subscriber's retained view compared.")
 
 
+# ------------------------------------------------------------------------------------------ C19
+
+KA_CFG = """SPECIFICATION Spec
+CONSTANTS
+ Gaps = {1, 2, 4}
+ LongGaps = {13}
+ MaxSends = %d
+ Kinds = {"ping", "pub"}
+INVARIANTS SilentDropped WillIffExpired Emit
+PROPERTIES ActiveNeverDropped
+"""
+
+
+@check("C19")
+def c19(tier):
+    import random
+    v = Verdict("C19", tier)
+    thorough = tier == "thorough"
+    r = core.cached_tlc("keepalive-%d" % (4 if thorough else 3), "KeepAlive", KA_CFG % (4 if thorough else 3), workers=1, timeout=600)
+    v.tlc("KeepAlive", r)
+    scheds = core.behaviours(r.lines)
+    rng = random.Random(core.seed())
+    # always: silent from the start, silent after traffic, pinging at 0.4 K and 0.8 K, publishes only
+    fixed = [s for s in scheds if len(s) == 1 or all(x["gap"] in (2, 13) for x in s) or all(x["gap"] in (4, 13) for x in s)]
+    rest = [s for s in scheds if s not in fixed]
+    rng.shuffle(rest)
+    chosen = fixed[:14] + rest[:(10 if not thorough else 130)]
+    runs = [(1, chosen)] + ([(2, chosen[:40])] if thorough else [])
+    for k, ss in runs:
+        p = core.run_harness(["keepalive", "-k", str(k), "-lanes", "24" if not thorough else "48"], stdin_obj=ss, timeout=900)
+        if p.returncode != 0:
+            raise Infra("keepalive failed: %s" % p.stderr[-2000:])
+        res = json.loads(p.stdout.strip().splitlines()[-1])
+        if res.get("counts", {}).get("infra"):
+            raise Infra("keepalive harness: %s" % res.get("notes"))
+        v.cov["parts"]["K=%ds" % k] = {"schedules": res.get("evaluations", 0), "steps": res.get("steps", 0), "mismatching": res.get("nmismatch", 0),
+                                       "of_enumerated": len(scheds)}
+        v.cov["evaluations"] += res.get("evaluations", 0)
+        v.cov["traces_validated_against_impl"] += res.get("evaluations", 0)
+        v.cov["distinct_nontrivial"] += res.get("evaluations", 0)
+        v.mismatches(res.get("mismatches"), res.get("counts"))
+        v.add_samples(res.get("samples") or [], 2)
+    v.cov["rule"] = ("client schedules enumerated by TLC from the KeepAlive specification (gaps of 0.2/0.4/0.8 K between PINGREQ or PUBLISH packets, then "
+                     "2.6 K of silence), run in real time against a real broker with KeepAlive 1 s (thorough: also 2 s): while active never closed and every "
+                     "PINGREQ answered; after the silence closed not earlier than K after the last packet, and the will at the witness. distinct_nontrivial = schedules run")
+    v.cov["exhaustive"] = False
+    v.assumptions += ["real time with margins: 'active' gaps are at most 0.8 K (deadline 1.2 K), 'silent' is judged at 2.6 K; a loaded machine could in principle delay a packet by more than 0.4 K",
+                      "quick runs the fixed patterns plus a seeded sample of the enumerated schedules"]
+    return v.finish()
+
+
 # ------------------------------------------------------------------------------------------ misc
 
 def setup():
